@@ -32,6 +32,26 @@ CHECKS = {
          "bounded-exhaustive enumeration of shapes x fills on the real fold, against the multi-index definition",
          "All 2 800 shapes with 1..4 axes and lengths 1..7 x fill in {nan,0,-1,inf}: every cell compared (bitwise, NaN-aware) with the definition on multi-indices, mass and idempotence with fill 0, fold(mirror x)==fold(x); bit-label spectra on the 814 shapes with <=52 cells, integer labelings and two special-value fillings (NaN, +-inf, -0, subnormal, huge) elsewhere; `sfs fold --fill` at L2. Folding is linear away from the fill cells, so label spectra decide it for all value vectors on those shapes.",
          TRUST + "Shapes with >4 axes or lengths >7 are outside the bound.", "3 C05"),
+ "C06": ("exploration",
+         "bounded-exhaustive enumeration of basis / two-cell spectra per statistic and shape, and of genotype-level call sets per population-size combination, against definitions typed from the papers",
+         "(a) Each linear statistic on every basis spectrum and each ratio statistic on every one- and two-cell spectrum of every admissible shape with lengths 2..5 (thorough 6), which fixes every weight of numerator and denominator; the 1-D estimators (pi, theta, Tajima's D, Fu & Li's D, S, sum) for every n = 3..400 (thorough 1000) on basis, two-cell, neutral and skewed spectra against formulas typed from Tajima 1989, Fu & Li 1993, Watterson 1975, Bhatia 2013, Waples 2019. (b) For every combination of population sizes in {1,2,3}^d, d<=3 and {1,2}^4 a call set containing every complete genotype row (pattern-dependent multiplicity): statistics of the spectrum produced by the real create path, from the library and from `sfs create | sfs stat -s <all admissible> --precision 12`, against direct computation from the genotypes (pairwise differences by brute force, site means of frequency products, ratio of sums, genotype-pair counts).",
+         TRUST + "Tolerance 1e-9 relative. Tajima's D at n=3 is identically 0/0 and is skipped. Population sizes >3 at the genotype level are outside the bound (covered at the coefficient level).", "3 C06"),
+ "C12": ("exploration",
+         "complete enumeration of the configuration grid container x BGZF layout x transport x thread count x repetition x sample configuration on the real binary; thread interleavings are OS-scheduled, not enumerated",
+         "For three small call sets (incl. missing / multiallelic / two contigs / extra fields) and one of 2 600 records (~150 KiB, several 64 KiB BGZF blocks): every container {vcf, vcf.gz, bcf, raw bcf} x 12 BGZF block layouts (single block, one record per block, 1/7/64/4096/65280-byte blocks, empty block in front/middle/end, stored blocks, no EOF marker) x {path, stdin} x --threads 1..16 x 2 repetitions (fresh hash seeds) x 2 sample configurations: stdout and exit status must be byte-identical to the canonical run (plain VCF by path, 1 thread); plus real pipes, the same grid at L1 through the real reader construction with set_threads, and a hash-order observer that calls the population-size map until all d! iteration orders (d<=4) have been seen while the reported shape must never change.",
+         TRUST + "NOT exhaustive: the interleaving of noodles-bgzf inflater threads inside one run (std::thread + crossbeam inside an unmodified dependency; sfs owns no synchronization). Those runs are OS-scheduled, i.e. sampled; evidence carries schedules_controlled=false. Exhaustive: everything sfs controls.", "3 C12, 4"),
+ "C13": ("model_checking",
+         "exhaustive enumeration of option combinations (operation sequences) of `sfs view`, each executed combined and as a chain of single-option invocations on the real binary, plus a reference model",
+         "Spectra with 1..4 axes x all 16 subsets of {marginalize, project, mask, normalize} x every admissible marginalization set (as -m and as -M) x projection targets {identity, each axis -1, minimal, odd shape via -p} x output {text p6, text p12, npy}: (a) the combined invocation and (b) the chain of single-option invocations in the documented order connected by lossless npy pipes must be byte-identical; (c) the combined result must equal reference semantics (sum over removed axes, hypergeometric projection, zero exactly the all-zero and all-maximum cells, divide by the sum), which also catches a defect shared by both sides of (a)/(b). All 24 chaining orders are run on one case to show that the oracle separates orders (7 distinct outputs; only the documented order matches).",
+         TRUST + "Quick rotates the output format over combinations instead of taking the full product (thorough does).", "3 C13"),
+ "C14": ("exploration",
+         "bounded-exhaustive enumeration of (shape, value set) pairs for metamorphic relations between two runs of the real statistics code",
+         "On 1-D shapes n+1 = 3..12, 2-D {2..5}^2 (thorough 6), 3-D {2..3}^3 (thorough 4), 4-D {2,3}^4 with every basis spectrum, every two-cell spectrum (small shapes), a ramp and a powers-of-two spectrum: f3/f4 equal the documented linear combinations of f2 of the two-population marginals computed by the real marginalize + normalize; the 12 listed statistics are unchanged by folding with fill 0; all but sum/f2/f3/f4 are independent of the two monomorphic cells (values 0, 1, 1000); f2, Fst, pi_xy, KING, R0, R1 are unchanged by swapping the populations; scaling by {2, 1/2, 3, 1e-3, 1e6} leaves the ratio statistics unchanged and scales the count statistics. At L2: every statistic alone vs inside the full -s list, `sfs fold --fill zero | sfs stat`, and scaled inputs through the full list.",
+         TRUST + "Relations compare two evaluations of the implementation (no reference needed); NaN on both sides counts as equal.", "3 C14"),
+ "C17": ("exploration",
+         "complete enumeration of an invocation grid and of single-fault neighbourhoods of valid inputs on the real binary (built with overflow checks)",
+         "(i) 14 statistics x every shape with 1..4 axes and lengths 1..4 plus zero-length-axis shapes; (ii) 13 view/fold option sets x the same shapes; (iii) option values at and beyond bounds (precision up to 2^64-1, projection up to 2^64-1, marginalization axes incl. duplicates / out-of-range / all, threads 0..2^64-1, delimiter); (iv) absurd declared shapes and header lengths in text and npy; (v) every sample list of <=3 entries over 2 samples x {unlabelled, A, B} with repetition, and odd spellings; (vi) every prefix of length 0..12 of a text/npy/vcf/vcf.gz/bcf/raw-bcf file to each subcommand; (vii) every single-bit flip, single-byte deletion, truncation and huge-number substitution of one valid text and npy file (thorough: also vcf, vcf.gz, bcf, raw bcf completely; quick: every 5th byte of vcf and raw bcf). Oracle: exit 0 or non-zero with a diagnostic; never exit 101, 'panicked at', a signal or a timeout.",
+         TRUST + "'Arbitrary bytes' is replaced by single-fault neighbourhoods; two-fault combinations are outside the bound. Allocation / thread-creation failures under the harness's own 16 GiB address-space cap are counted as inconclusive. Known findings (dependency panics) are listed in KNOWN_FINDINGS.txt.", "3 C17"),
  "C07": ("exploration",
          "bounded-exhaustive enumeration of shapes x special values x precisions x formats on the real writer/reader, and of the complete producer x format x sink x consumer matrix on the real binary",
          "All 1 049 shapes with 1..6 axes, lengths 1..4 and <=24 cells filled from a 16-value special alphabet (+-0, subnormal, huge, NaN incl. a signalling payload, +-inf, 1/3) x precision 0..17 x {text, npy}: io::write::Builder bytes read back by Array::read_npy and the auto-detecting io::read::Builder (npy bit-identical, text within half a unit of the p-th decimal); every special value alone at every precision. At L2 the complete matrix producer{create,view,fold} x format x sink{stdout, -o fresh file, -o over a longer existing file} x consumer{view,fold,stat} x 6 spectra, and text->npy->text token identity for all 3-digit mantissas x 13 exponents x 4 precisions.",
